@@ -3,6 +3,7 @@
 package main
 
 import (
+	"fmt"
 	"net/http"
 	"sort"
 	"strconv"
@@ -312,7 +313,7 @@ func famHistWant(want string) family {
 					a.Origins = append(a.Origins, "https://"+h)
 				}
 				for k := 0; k < cnt; k++ {
-					a.RequestHeaders = append(a.RequestHeaders, "x-b"+strconv.Itoa(100+k)[1:])
+					a.RequestHeaders = append(a.RequestHeaders, "x-b"+strconv.Itoa(100 + k)[1:])
 				}
 				bcfg = cloneCfg(a)
 				bcfg.Origins = append(bcfg.Origins, "https://zz"+a.Origins[1][len("https://")+1:])
@@ -493,76 +494,83 @@ func famRoundtrip(o *Out, r R, tier string) {
 		special = append(special, c)
 	}
 	for i := 0; i < n+len(special); i++ {
-		var c cors.Config
-		if i < len(special) {
-			c = special[i]
-		} else {
-			c = genValidConfig(r)
-		}
-		a, err := cors.NewMiddleware(cloneCfg(c))
-		if err != nil {
-			continue
-		}
-		k1 := a.Config()
-		var bm *cors.Middleware
-		reconfOK := true
-		if k1 != nil {
-			bm, err = cors.NewMiddleware(cloneCfg(*k1))
+		func() {
+			var c cors.Config
+			if i < len(special) {
+				c = special[i]
+			} else {
+				c = genValidConfig(r)
+			}
+			defer func() { // a crash anywhere in the round trip is a failing input of its own, not the end of the run
+				if e := recover(); e != nil {
+					o.emitDirect("roundtrip/panic", false, fmt.Sprintf("PANIC %v in NewMiddleware/Config/Reconfigure(Config()) on %s", e, truncate(str(cfgSX(&c)))))
+				}
+			}()
+			a, err := cors.NewMiddleware(cloneCfg(c))
 			if err != nil {
+				return
+			}
+			k1 := a.Config()
+			var bm *cors.Middleware
+			reconfOK := true
+			if k1 != nil {
+				bm, err = cors.NewMiddleware(cloneCfg(*k1))
+				if err != nil {
+					reconfOK = false
+				}
+			}
+			var z cors.Middleware
+			cc := cloneCfg(c)
+			if z.Reconfigure(&cc) != nil {
 				reconfOK = false
 			}
-		}
-		var z cors.Middleware
-		cc := cloneCfg(c)
-		if z.Reconfigure(&cc) != nil {
-			reconfOK = false
-		}
-		// Reconfigure(Config()) on a itself, twice
-		a2, _ := cors.NewMiddleware(cloneCfg(c))
-		if a2.Reconfigure(a2.Config()) != nil {
-			reconfOK = false
-		}
-		k2 := a2.Config()
-		if a2.Reconfigure(a2.Config()) != nil {
-			reconfOK = false
-		}
-		k3 := a2.Config()
-		probes := probeSuite(&c)
-		for j := 0; j < 6; j++ {
-			probes = append(probes, genRequest(&c, r))
-		}
-		probeSX := make(SL, len(probes))
-		for i, q := range probes {
-			probeSX[i] = q.sx()
-		}
-		outsOf := func(m *cors.Middleware, debug bool) SX {
-			if m == nil {
-				return L()
+			// Reconfigure(Config()) on a itself, twice
+			a2, _ := cors.NewMiddleware(cloneCfg(c))
+			if a2.Reconfigure(a2.Config()) != nil {
+				reconfOK = false
 			}
-			m.SetDebug(debug)
-			l := make(SL, len(probes))
+			k2 := a2.Config()
+			if a2.Reconfigure(a2.Config()) != nil {
+				reconfOK = false
+			}
+			k3 := a2.Config()
+			probes := probeSuite(&c)
+			for j := 0; j < 6; j++ {
+				probes = append(probes, genRequest(&c, r))
+			}
+			probeSX := make(SL, len(probes))
 			for i, q := range probes {
-				l[i] = serveOnce(m, q, http.Header{}).sx()
+				probeSX[i] = q.sx()
 			}
-			return l
-		}
-		outs := L(outsOf(a, false), outsOf(a, true), outsOf(bm, false), outsOf(bm, true), outsOf(&z, false), outsOf(&z, true))
-		cfgs := SL{}
-		for _, k := range []*cors.Config{k1, k2, k3} {
-			cfgs = append(cfgs, cfgSX(k))
-		}
-		all := append([]string{}, c.Origins...)
-		for _, k := range []*cors.Config{k1, k2, k3} {
-			if k != nil {
-				all = append(all, k.Origins...)
+			outsOf := func(m *cors.Middleware, debug bool) SX {
+				if m == nil {
+					return L()
+				}
+				m.SetDebug(debug)
+				l := make(SL, len(probes))
+				for i, q := range probes {
+					l[i] = serveOnce(m, q, http.Header{}).sx()
+				}
+				return l
 			}
-		}
-		kind := "roundtrip"
-		if i < len(special) {
-			kind = "roundtrip-corpus"
-		}
-		o.emit("roundtrip", true, kind, KV("cfg", cfgSX(&c)), KV("probes", probeSX), KV("configs", cfgs),
-			KV("reconfok", Bool(reconfOK)), KV("outs", outs), oracleFor(all))
+			outs := L(outsOf(a, false), outsOf(a, true), outsOf(bm, false), outsOf(bm, true), outsOf(&z, false), outsOf(&z, true))
+			cfgs := SL{}
+			for _, k := range []*cors.Config{k1, k2, k3} {
+				cfgs = append(cfgs, cfgSX(k))
+			}
+			all := append([]string{}, c.Origins...)
+			for _, k := range []*cors.Config{k1, k2, k3} {
+				if k != nil {
+					all = append(all, k.Origins...)
+				}
+			}
+			kind := "roundtrip"
+			if i < len(special) {
+				kind = "roundtrip-corpus"
+			}
+			o.emit("roundtrip", true, kind, KV("cfg", cfgSX(&c)), KV("probes", probeSX), KV("configs", cfgs),
+				KV("reconfok", Bool(reconfOK)), KV("outs", outs), oracleFor(all))
+		}()
 	}
 }
 
